@@ -561,6 +561,15 @@ def payload(pid, ch, n):
 if __name__ == "__main__":
     seed, wid = sys.argv[1], sys.argv[2]
     script, mode = make_script(seed, wid)
+    if len(sys.argv) > 3:
+        # watcher-level part: the worker stays; with "helper" it first leaves a child that shares its stdout/stderr
+        # (a master/worker server, `sh -c "prog | filter"`) and outlives it
+        mode = "stay"
+        if sys.argv[3] == "helper" and os.fork() == 0:
+            with open(os.path.join(sys.argv[4], str(os.getpid())), "w") as fh:
+                fh.write("helper")
+            time.sleep(300)
+            os._exit(0)
     pid = os.getpid()
     tot = {"stdout": 0, "stderr": 0}
     for ch, size, pause in script:
@@ -839,11 +848,207 @@ def live_main(repo, gens, seed, scratch):
         bad = check_labels()
         if bad and not res["violations"]:
             res["violations"].append(bad)
+        # ---- watcher level: the kill path (decr / reload / restart / stop) with pipe-holding helper children
+        try:
+            res["wl"] = yield watcher_level(max(6, gens // 4))
+        except Exception:
+            res["wl"] = {"error": traceback.format_exc(), "violations": []}
         # ---- C17-F1 in vivo: two watchers on one loop
         try:
             res["f1"] = yield scenario_f1()
         except Exception:
             res["f1"] = {"error": traceback.format_exc()}
+
+    @gen.coroutine
+    def watcher_level(rounds):
+        """Real Watchers A (workers with a helper child that keeps the pipes open) and B (plain) on one loop.
+        Workers are removed ONLY through the watcher's own kill path (decr, graceful reload, restart, stop: all go
+        through Watcher.kill_process = remove_redirections, then Process.stop()), never reaped from outside, so
+        nothing here is the C17-F1 path; then workers are spawned in the same and in the sibling watcher.  After
+        every operation: every running child is tracked by its watcher, every tracked worker's pipes are watched,
+        its output arrives completely under its own pid at its own watcher's streams, descriptors do not grow."""
+        import psutil
+        out = {"rounds": 0, "ops": [], "violations": [], "spawned": 0, "removed_by_kill_path": 0,
+               "complete_checked": 0, "watched_checked": 0, "fd_points": []}
+        wrng = random.Random("c17-wl:%s" % seed)
+        hdir = os.path.join(scratch, "helpers")
+        os.makedirs(hdir, exist_ok=True)
+        wrecs = {"A": [], "B": []}
+
+        def wcoll(wname, stream):
+            def f(d):
+                wrecs[wname].append((stream, d.get("pid"), d.get("name"), bytes(d.get("data", b""))))
+            f.close = lambda: None
+            return f
+
+        ws = {"A": mk_watcher("wlA", 2, ["-S", "-B", wpath, str(seed), "wlA-$(circus.wid)", "helper", hdir],
+                              wcoll("A", "stdout"), wcoll("A", "stderr")),
+              "B": mk_watcher("wlB", 1, ["-S", "-B", wpath, str(seed), "wlB-$(circus.wid)", "plain"],
+                              wcoll("B", "stdout"), wcoll("B", "stderr"))}
+        winfo = {}          # pid -> {"w": name, "expect": {ch: bytes}}
+
+        def wtrack():
+            for wn, w in ws.items():
+                for pid, p in w.processes.items():
+                    if pid not in winfo:
+                        script, _ = make_script(seed, "wl%s-%s" % (wn, p.wid))
+                        tot = {"stdout": 0, "stderr": 0}
+                        for ch, size, _p in script:
+                            tot[ch] += size
+                        winfo[pid] = {"w": wn, "expect": {ch: payload(pid, ch, tot[ch]) for ch in tot}}
+                        out["spawned"] += 1
+
+        def wgot(wn, pid):
+            g = {"stdout": b"", "stderr": b""}
+            for stream, rpid, name, data in wrecs[wn]:
+                if rpid == pid and name in g:
+                    g[name] += data
+            return g
+
+        me = psutil.Process()
+
+        def running_children():
+            res_ = []
+            for c in me.children():
+                try:
+                    if c.status() != psutil.STATUS_ZOMBIE:
+                        res_.append(c.pid)
+                except psutil.Error:
+                    pass
+            return res_
+
+        base = [None]
+
+        @gen.coroutine
+        def check(after):
+            yield gen.sleep(0.05)
+            wtrack()
+            tracked = {}
+            for wn, w in ws.items():
+                for pid, p in w.processes.items():
+                    tracked[pid] = (wn, p)
+            # (1) every running child of the daemon is a worker some watcher manages
+            orphans = sorted(set(running_children()) - set(tracked))
+            if orphans:
+                return ("C17_Watched: after %s the daemon has running worker(s) %s that no watcher tracks: spawned by "
+                        "spawn_process, dropped when add_redirections failed; their output is never read "
+                        "(handler table %s)" % (after, orphans, sorted(getattr(loop, "handlers", {}))))
+            # (2) the pipes of every tracked running worker are watched
+            for pid, (wn, p) in tracked.items():
+                if gone(pid):
+                    continue
+                for ch, pipe in (("stdout", p.stdout), ("stderr", p.stderr)):
+                    out["watched_checked"] += 1
+                    if pipe.fileno() not in getattr(loop, "handlers", {}):
+                        return ("C17_Watched: after %s the %s of running worker %d (watcher %s, fd %d) is not "
+                                "registered with the loop" % (after, ch, pid, wn, pipe.fileno()))
+            # (3) completeness, order, labels -- per watcher
+            t0 = time.time()
+            live_pids = [pid for pid in tracked if not gone(pid)]
+
+            def done(pid):
+                g = wgot(tracked[pid][0], pid)
+                return all(len(g[ch]) >= len(winfo[pid]["expect"][ch]) for ch in g)
+            while time.time() - t0 < 120 and not all(done(pid) for pid in live_pids):
+                yield gen.sleep(0.01)
+            for wn in ws:
+                for stream, rpid, name, data in wrecs[wn]:
+                    if name != stream or rpid not in winfo or winfo[rpid]["w"] != wn:
+                        return ("C17_Label: after %s a record labelled pid=%r name=%r arrived at the %s stream of "
+                                "watcher %s" % (after, rpid, name, stream, wn))
+            for pid in live_pids:
+                g = wgot(tracked[pid][0], pid)
+                for ch in g:
+                    e = winfo[pid]["expect"][ch]
+                    if not e.startswith(g[ch]):
+                        return "C17_Prefix: after %s worker %d %s: received bytes are not a prefix of the written" % (
+                            after, pid, ch)
+                    if len(g[ch]) < len(e):
+                        return ("C17_Done: after %s running worker %d (watcher %s) wrote %d bytes on %s, %d arrived "
+                                "within 120 s" % (after, pid, tracked[pid][0], len(e), ch, len(g[ch])))
+                out["complete_checked"] += 1
+            # (4) descriptors: two per tracked worker over a constant base
+            n = nfds()
+            b = n - 2 * len(tracked)
+            out["fd_points"].append([after, len(tracked), n])
+            if base[0] is None:
+                base[0] = b
+            elif b > base[0] + 2:
+                return ("C17_Fds: after %s %d descriptors are open with %d tracked workers (base was %d, is %d)"
+                        % (after, n, len(tracked), base[0], b))
+            return None
+
+        @gen.coroutine
+        def op(name, wn):
+            w = ws[wn]
+            before = set(w.processes)
+            if name == "decr":
+                if w.numprocesses < 1 or w.is_stopped():
+                    return False
+                yield w.decr(1)
+            elif name == "incr":
+                if w.numprocesses >= 3 or w.is_stopped():
+                    return False
+                yield w.incr(1)
+            elif name == "reload":
+                if w.is_stopped():
+                    return False
+                yield w.reload()
+            elif name == "restart":
+                yield w.restart()
+            elif name == "stopstart":
+                yield w.stop()
+                out["removed_by_kill_path"] += len(before)
+                yield gen.sleep(0.02)
+                yield w.start()
+                out["ops"].append("%s %s" % (name, wn))
+                return True
+            out["removed_by_kill_path"] += len(before - set(w.processes))
+            out["ops"].append("%s %s" % (name, wn))
+            return True
+
+        try:
+            yield ws["A"].start()
+            yield ws["B"].start()
+            bad = yield check("start")
+            # the first history is the plain one: a helper-holding worker goes, the sibling watcher grows
+            plans = [[("decr", "A"), ("incr", "B")], [("decr", "A"), ("incr", "A")]]
+            menu = [[("decr", "A"), ("incr", "B")], [("decr", "A"), ("incr", "A")], [("reload", "A"), ("incr", "B")],
+                    [("decr", "B"), ("incr", "A")], [("restart", "A"), ("incr", "B")], [("stopstart", "A")],
+                    [("decr", "A"), ("decr", "A"), ("incr", "B"), ("incr", "B")], [("reload", "B"), ("incr", "A")],
+                    [("incr", "A")], [("decr", "B")]]
+            while not bad and out["rounds"] < rounds:
+                plan = plans.pop(0) if plans else wrng.choice(menu)
+                out["rounds"] += 1
+                for name, wn in plan:
+                    did = yield op(name, wn)
+                    if did:
+                        bad = yield check("%s on watcher %s (history: %s)" % (name, wn, ", ".join(out["ops"][-6:])))
+                        if bad:
+                            break
+            if bad:
+                out["violations"].append(bad)
+        finally:
+            for w in ws.values():
+                try:
+                    yield w.stop()
+                except Exception:
+                    pass
+            for c in me.children():
+                if c.pid in set(running_children()):
+                    try:
+                        c.kill()
+                        c.wait(5)
+                    except psutil.Error:
+                        pass
+            for name in os.listdir(hdir):
+                try:
+                    os.kill(int(name), signal.SIGKILL)
+                except (OSError, ValueError):
+                    pass
+        out["ops"] = out["ops"][:40]
+        out["fd_points"] = out["fd_points"][:3] + out["fd_points"][-3:]
+        return out
 
     @gen.coroutine
     def scenario_f1():
@@ -952,8 +1157,8 @@ def replay_main(prop, path):
             print("MACHINERY-FAILURE: live run failed: " + p.stderr[-1500:])
             return 2
         live = json.loads(p.stdout.strip().splitlines()[-1])
-        print(json.dumps({k: live[k] for k in ("generations", "violations", "f1")}, indent=1))
-        if live["violations"] or (live.get("f1") or {}).get("reproduced"):
+        print(json.dumps({k: live.get(k) for k in ("generations", "violations", "wl", "f1")}, indent=1))
+        if live["violations"] or (live.get("wl") or {}).get("violations") or (live.get("f1") or {}).get("reproduced"):
             print("VIOLATION property=%s replay=%s" % (prop, path))
             return 1
         return 0
@@ -1092,6 +1297,13 @@ def run(prop, tier, seed):
                 for v in live["violations"]:
                     verdict.violation("LIVE: " + v, {"kind": "live", "seed": seed, "generations": T["live_gens"],
                                                      "what": v, "samples": live.get("samples")})
+                wl = live.get("wl") or {}
+                for v in wl.get("violations", []):
+                    verdict.violation("WATCHER-LEVEL (kill path only, not the C17-F1 reap path): " + v,
+                                      {"kind": "live", "seed": seed, "generations": T["live_gens"], "what": v,
+                                       "history": wl.get("ops")})
+                if "error" in wl:
+                    verdict.machinery.append("watcher-level part failed: " + wl["error"][-1500:])
                 f1 = live.get("f1") or {}
                 if f1.get("reproduced"):
                     verdict.attributed(FINDING, "LIVE, two real Watchers on one IOLoop: after watcher A's worker was "
@@ -1120,7 +1332,8 @@ def run(prop, tier, seed):
     cov["divergences"] = (sim["divergences"] + cexs["divergences"])[:20]
     cov["divergence_count"] = len(sim["divergences"]) + len(cexs["divergences"])
     cov["counterexample_search"] = locals().get("cex_info", {})
-    cov["live"] = dict((k, v) for k, v in (live or {}).items() if k not in ("samples",))
+    cov["live"] = dict((k, v) for k, v in (live or {}).items() if k not in ("samples", "wl"))
+    cov["watcher_level"] = (live or {}).get("wl", {})
     if live and len(cov["live"].get("fd_counts", [])) > 12:
         fc = cov["live"]["fd_counts"]
         cov["live"]["fd_counts"] = fc[:4] + ["..."] + fc[-4:]
